@@ -510,6 +510,21 @@ func execBmtree(w *world, op ROp, viaValue bool) (out rOutcome) {
 		if op.C&2 != 0 {
 			from, to = 0, 1<<63
 		}
+		if op.C&4 != 0 && np > 16 {
+			// exactly cnt paths, cnt a "round" number (what an initial capacity or a
+			// growth step is likely to be), as far as the tree has that many
+			cnt := roundCounts[mod(op.B, int64(len(roundCounts)))]
+			for cnt > np {
+				cnt /= 2
+			}
+			a := mod(op.A, np-cnt+1)
+			from = m.paths[a]
+			if a+cnt < np {
+				to = m.paths[a+cnt]
+			} else {
+				to = m.paths[np-1] + 1
+			}
+		}
 		out.words = bmtree.AllPaths(m.mask, from, to)
 	case "bmtree.Decode":
 		if op.A&1 == 1 {
@@ -724,6 +739,10 @@ func execSigbits(w *world, op ROp) (out rOutcome) {
 
 // ---- plan generation --------------------------------------------------------
 
+// roundCounts: result sizes at which a buffer of a typical initial capacity, or
+// one grown by doubling from it, is exactly full.
+var roundCounts = []int64{1000, 1000, 1024, 1024, 512, 500, 256, 128, 100, 64, 32, 16, 2000, 2048, 4096, 1536, 3072, 8192}
+
 func genReaders(seed uint64, allowFmt bool, cold bool, deepTier bool, rare string) *ReadersPlan {
 	r := engine.NewPRNG(seed)
 	p := &ReadersPlan{World: genWorldSpec(r)}
@@ -819,6 +838,16 @@ func genReaders(seed uint64, allowFmt bool, cold bool, deepTier bool, rare strin
 			for i := range ops {
 				ops[i].Obj = (t + i) % 3 // every call meets what a call for ANOTHER tree left behind
 			}
+		}
+		if len(p.World.Masks) > 0 && p.World.Masks[0] >= 1<<11-1 && !p.World.HugeMasks && p.World.HugeKeys == 0 && p.World.HugeWords == 0 {
+			// a wide tree is there to be asked for round numbers of paths: early in
+			// the task (a pooled buffer is smallest before anything big ran), and
+			// followed by calls on other trees that would reuse such a buffer
+			k := r.Intn(len(roundCounts))
+			pre := []ROp{{Fn: "bmtree.AllPaths", Obj: 0, A: int64(r.Uint64() >> 20), B: int64(k), C: 4},
+				{Fn: "bmtree.AllPaths", Obj: 1, A: int64(r.Uint64() >> 20), B: int64(r.Uint64() >> 20), C: 2},
+				{Fn: "bmtree.Decode", Obj: 1 + r.Intn(2), A: int64(r.Intn(2))}}
+			ops = append(pre, ops...)
 		}
 		p.Tasks = append(p.Tasks, ops)
 	}
